@@ -55,7 +55,7 @@ Proof. vm_compute. split; reflexivity. Qed.
 (* the save-once / restore-once structure the model transcribes is the source's: control skeletons of
    defaultVarMocker.doSet and .Cancel regenerated from var.go by go2v on every run (Tie/SkeletonTie) *)
 Theorem C08_save_restore_structure_is_source :
-  List.length Gen.MockerSkeleton.defaultVarMocker_doSet_skeleton = 9%nat /\
+  List.length Gen.MockerSkeleton.defaultVarMocker_doSet_skeleton = 10%nat /\
   List.length Gen.MockerSkeleton.defaultVarMocker_Cancel_skeleton = 4%nat.
 Proof. rewrite var_doset_skeleton_tie, var_cancel_skeleton_tie. split; reflexivity. Qed.
 Print Assumptions C08_save_restore_structure_is_source.
